@@ -238,34 +238,45 @@ Section Stream.
 
   (* snprintf / Fmt restricted to the conversions %d, %<w>d, %0<w>d (w one digit), every other byte
      copied: enough for the REGENERATED formats of Logger::Impl::formatTime (Gen_C17.time_format,
-     us_format_zone, us_format_utc; the generator refuses any other conversion) *)
-  Definition with_arg (args : list Z) (k : Z -> list Z -> list byte) : list byte :=
-    match args with a :: r => k a r | [] => [] end.
+     us_format_zone, us_format_utc; the generator refuses any other conversion).  The format is
+     first cut into pieces, then the pieces are rendered with the arguments. *)
+  Inductive piece := PLit (c : byte) | PDec (padc : option byte) (w : nat).
   Definition width_of (w : byte) : nat := Z.to_nat (Z_of_byte w - 48).
-  Fixpoint mini_printf (fmt : list byte) (args : list Z) {struct fmt} : list byte :=
+  Fixpoint parse_fmt (fmt : list byte) {struct fmt} : list piece :=
     match fmt with
     | [] => []
     | c :: rest =>
         if Byte.eqb c x25 then
           match rest with
-          | [] => [c]
+          | [] => [PLit c]
           | f :: rest1 =>
-              if Byte.eqb f x64 then with_arg args (fun a r => convert a ++ mini_printf rest1 r)
+              if Byte.eqb f x64 then PDec None 0 :: parse_fmt rest1
               else match rest1 with
-                   | [] => c :: mini_printf rest args
+                   | [] => PLit c :: parse_fmt rest
                    | g :: rest2 =>
-                       if Byte.eqb g x64 then with_arg args (fun a r => fmt_d x20 (width_of f) a ++ mini_printf rest2 r)
+                       if Byte.eqb g x64 then PDec (Some x20) (width_of f) :: parse_fmt rest2
                        else match rest2 with
-                            | [] => c :: mini_printf rest args
+                            | [] => PLit c :: parse_fmt rest
                             | h :: rest3 =>
                                 if Byte.eqb f x30 && Byte.eqb h x64
-                                then with_arg args (fun a r => fmt_d x30 (width_of g) a ++ mini_printf rest3 r)
-                                else c :: mini_printf rest args
+                                then PDec (Some x30) (width_of g) :: parse_fmt rest3
+                                else PLit c :: parse_fmt rest
                             end
                    end
           end
-        else c :: mini_printf rest args
+        else PLit c :: parse_fmt rest
     end.
+  Fixpoint render_pieces (ps : list piece) (args : list Z) : list byte :=
+    match ps with
+    | [] => []
+    | PLit c :: r => c :: render_pieces r args
+    | PDec pc w :: r =>
+        match args with
+        | a :: ar => (match pc with Some c => fmt_d c w a | None => convert a end) ++ render_pieces r ar
+        | [] => []
+        end
+    end.
+  Definition mini_printf (fmt : list byte) (args : list Z) : list byte := render_pieces (parse_fmt fmt) args.
 
   (* per-thread cache t_lastSecond / t_time, Logging.cc:38-40 (zero-initialised, char t_time[64]) *)
   Record tls := mkTLS { lastSecond : Z; t_time : list byte }.
